@@ -137,6 +137,15 @@ func (s *Session) wait() {
 	case <-s.tick.C:
 	case <-s.ctx.Done():
 		s.state.Set(stateClosing)
+		return
+	}
+	// The KillDate may have passed while we were sleeping, check it again so
+	// that no exchange is started after it.
+	if s.IsClient() && !s.kill.IsZero() && time.Now().After(s.kill) {
+		if cout.Enabled {
+			s.log.Info(`[%s] Kill Date "%s" was hit, triggering shutdown!`, s.ID, s.kill.Format(time.UnixDate))
+		}
+		s.state.Set(stateClosing)
 	}
 }
 
